@@ -38,7 +38,7 @@ def main():
             na.append({"property_id": i, "reason": NOT_BUILT_REASON})
     m = {
         "version": 1,
-        "setup_cmd": "cd harness && CARGO_NET_OFFLINE=true cargo build --offline --profile verif --workspace",
+        "setup_cmd": "cd harness && CARGO_NET_OFFLINE=true cargo build --offline --profile verif " + " ".join("-p " + c["property_id"].lower() for c in checks),
         "hooks": {
             "guard": "cargo feature `verif-hooks` on hickory-proto / -net / -resolver / -server (off by default)",
             "enable": "harness/Cargo.toml enables feature verif-hooks on its path dependencies to /repo/crates/*; every ./check rebuilds from /repo's working tree",
